@@ -1,6 +1,7 @@
 package main
 
 import (
+	"sort"
 	"fmt"
 	"go/token"
 	"go/types"
@@ -28,7 +29,112 @@ func (d *protoDom) lenOf(st *sState, t *pt) int {
 			}
 		}
 	}
+	if c, ok := d.pinTerm(st, pOp("len", t)); ok {
+		return int(c)
+	}
 	return -1
+}
+
+// pinTerm: the value of an integer term when the facts of the path pin it: two-sided bounds (len - 32 <= 0 and
+// len - 32 >= 0, or j-1 < len <= j from a counting loop). Candidates are the constants that occur in the facts that share
+// a symbol with the term.
+func (d *protoDom) pinTerm(st *sState, t *pt) (int64, bool) {
+	var keys []string
+	var syms func(t *pt)
+	syms = func(t *pt) {
+		switch t.op {
+		case "add", "neg", "mul":
+			for _, a := range t.args {
+				syms(a)
+			}
+		case "c":
+		default:
+			keys = append(keys, t.String())
+		}
+	}
+	syms(t)
+	if len(keys) == 0 {
+		return 0, false
+	}
+	cands := map[int64]bool{}
+	mentions := false
+	for _, f := range st.pfacts {
+		if f.a == nil {
+			continue
+		}
+		fa, fb := f.a.String(), f.b.String()
+		hit := false
+		for _, key := range keys {
+			if strings.Contains(fa, key) || strings.Contains(fb, key) {
+				hit = true
+			}
+		}
+		if !hit {
+			continue
+		}
+		mentions = true
+		var walk func(t *pt)
+		walk = func(t *pt) {
+			if t.op == "c" && t.n.IsInt64() {
+				v := t.n.Int64()
+				if v < 0 {
+					v = -v
+				}
+				for _, c := range []int64{v - 1, v, v + 1} {
+					if c >= 0 && c <= 4096 {
+						cands[c] = true
+					}
+				}
+			}
+			for _, a := range t.args {
+				walk(a)
+			}
+		}
+		walk(f.a)
+		walk(f.b)
+	}
+	if !mentions {
+		return 0, false
+	}
+	// the term's own constants shift the candidates
+	var offs []int64
+	var walkT func(t *pt)
+	walkT = func(t *pt) {
+		if t.op == "c" && t.n.IsInt64() {
+			offs = append(offs, t.n.Int64())
+		}
+		for _, a := range t.args {
+			walkT(a)
+		}
+	}
+	if t.op == "add" {
+		walkT(t)
+		var sum int64
+		for _, o := range offs {
+			sum += o
+		}
+		offs = append(offs, sum)
+	}
+	all := map[int64]bool{}
+	for c := range cands {
+		all[c] = true
+		for _, o := range offs {
+			if c+o >= 0 {
+				all[c+o] = true
+			}
+		}
+	}
+	sorted := make([]int64, 0, len(all))
+	for c := range all {
+		sorted = append(sorted, c)
+	}
+	sort.Slice(sorted, func(i, j int) bool { return sorted[i] < sorted[j] })
+	for _, c := range sorted {
+		if proveP(st.pfacts, t, token.EQL, pC(c)) {
+			return c, true
+		}
+	}
+	return 0, false
 }
 
 // cellsTerm: the byte string held by cells
@@ -446,6 +552,86 @@ func (d *protoDom) call(st *sState, call *ssa.Call, name string, args []sVal) (b
 		}
 		set(pInt{pOp("eqb", x, y)})
 		return true, nil
+	case "math/bits.Sub32", "math/bits.Sub64", "math/bits.Sub":
+		// a borrow chain over the bytes of two strings, least significant byte first, computes "X < Y": the borrow out of
+		// the first k bytes is a term; when the chain has covered every byte the path forks on the comparison
+		x, ok1 := d.intArg(args[0])
+		y, ok2 := d.intArg(args[1])
+		bw, ok3 := d.intArg(args[2])
+		if ok1 && ok2 && ok3 {
+			x, y = d.normInt(st, x), d.normInt(st, y)
+			if x.op == "byte" && y.op == "byte" && x.k == y.k {
+				X, Y := x.args[0], y.args[0]
+				n := d.lenOf(st, X)
+				k := -1
+				switch {
+				case bw.op == "c" && bw.n.Sign() == 0:
+					k = 0
+				case bw.op == "brw" && bw.args[0].String() == X.String() && bw.args[1].String() == Y.String():
+					k = bw.k
+				}
+				if n > 0 && n == d.lenOf(st, Y) && k >= 0 && x.k == n-1-k {
+					if k+1 < n {
+						set([]sVal{sOpaque{"difference byte"}, pInt{&pt{op: "brw", args: []*pt{X, Y}, k: k + 1}}})
+						return true, nil
+					}
+					ge := st.clone()
+					ge.vals[call] = []sVal{sOpaque{"difference byte"}, sInt{big.NewInt(0)}}
+					ge.addFact(pFact{a: pVal(X), op: token.GEQ, b: pVal(Y)})
+					st.addFact(pFact{a: pVal(X), op: token.LSS, b: pVal(Y)})
+					set([]sVal{sOpaque{"difference byte"}, sInt{big.NewInt(1)}})
+					var extra []*sState
+					if !d.infeasible(ge) {
+						extra = append(extra, ge)
+					}
+					if d.infeasible(st) {
+						st.dead = true
+					}
+					return true, extra
+				}
+			}
+		}
+		return fail("%s outside a borrow chain over the bytes of two strings (operands %v, %v, borrow %v)", name, x, y, bw)
+	case "crypto/subtle.ConstantTimeByteEq", "crypto/subtle.ConstantTimeEq":
+		// 1 if the arguments are equal, else 0: the path forks on the comparison
+		byteOrInt := func(v sVal) (*pt, bool) {
+			if bc, ok := v.(byteCell); ok {
+				if bc.src.op == "lsb" && bc.idx == 0 {
+					return &pt{op: "trunc", args: []*pt{bc.src.args[0]}, k: 8}, true
+				}
+				return byteTerm(bc.src, bc.idx), true
+			}
+			return d.intArg(v)
+		}
+		x, ok1 := byteOrInt(args[0])
+		y, ok2 := byteOrInt(args[1])
+		if !ok1 || !ok2 {
+			return fail("%s of a value the domain does not model", name)
+		}
+		x, y = d.normInt(st, x), d.normInt(st, y)
+		// the OR of all bytes of a string is zero exactly when its value is zero
+		if X := orOfAllBytes(d, st, x); X != nil && y.op == "c" && y.n.Sign() == 0 {
+			x, y = pVal(X), pC(0)
+		} else if X := orOfAllBytes(d, st, y); X != nil && x.op == "c" && x.n.Sign() == 0 {
+			x, y = pVal(X), pC(0)
+		}
+		if v, known := d.decideCmp(st, x, token.EQL, y); known {
+			set(sInt{big.NewInt(map[bool]int64{true: 1, false: 0}[v])})
+			return true, nil
+		}
+		ne := st.clone()
+		ne.vals[call] = sInt{big.NewInt(0)}
+		ne.addFact(pFact{a: x, op: token.NEQ, b: y})
+		st.addFact(pFact{a: x, op: token.EQL, b: y})
+		set(sInt{big.NewInt(1)})
+		var extra []*sState
+		if !d.infeasible(ne) {
+			extra = append(extra, ne)
+		}
+		if d.infeasible(st) {
+			st.dead = true
+		}
+		return true, extra
 	case "sm2.TestPrivateKey":
 		// called from another entry point: by its contract (decided on its own body by KEYTEST-ACCEPT / KEYTEST-REJECT):
 		// 0 exactly for keys of at most 32 bytes with 1 <= d <= n-2
@@ -981,4 +1167,46 @@ func finitePoint(st *sState, P *pt) bool {
 		return proveP(st.pfacts, P.args[0], token.GEQ, pC(1)) && proveP(st.pfacts, P.args[0], token.LSS, pSym("N"))
 	}
 	return false
+}
+
+// orOfAllBytes: t is byte(X,0) | byte(X,1) | ... | byte(X,n-1) for a string X of known length n; returns X
+func orOfAllBytes(d *protoDom, st *sState, t *pt) *pt {
+	if t.op == "trunc" {
+		t = t.args[0]
+	}
+	args := t.args
+	if t.op == "byte" {
+		args = []*pt{t} // a one-byte string
+	} else if t.op != "or" {
+		return nil
+	}
+	var X *pt
+	seen := map[int]bool{}
+	for _, a := range args {
+		if a.op == "c" && a.n.Sign() == 0 {
+			continue
+		}
+		if a.op != "byte" {
+			return nil
+		}
+		if X == nil {
+			X = a.args[0]
+		} else if a.args[0].String() != X.String() {
+			return nil
+		}
+		seen[a.k] = true
+	}
+	if X == nil {
+		return nil
+	}
+	n := d.lenOf(st, X)
+	if n <= 0 || len(seen) != n {
+		return nil
+	}
+	for i := 0; i < n; i++ {
+		if !seen[i] {
+			return nil
+		}
+	}
+	return X
 }
